@@ -164,3 +164,34 @@ func WouldBlock(f func()) bool {
 func Go(f func())          { go f() }
 func IsNaN(f float64) bool { return math.IsNaN(f) }
 func IsInf(f float64) bool { return math.IsInf(f, 0) }
+
+// All/Any/Implies/Ite* are the non-short-circuit forms (one SMT term, no path fork).
+func All(c ...bool) bool {
+	for _, x := range c {
+		if !x {
+			return false
+		}
+	}
+	return true
+}
+func Any(c ...bool) bool {
+	for _, x := range c {
+		if x {
+			return true
+		}
+	}
+	return false
+}
+func Implies(a, b bool) bool { return !a || b }
+func IteF(c bool, a, b float64) float64 {
+	if c {
+		return a
+	}
+	return b
+}
+func IteI(c bool, a, b int64) int64 {
+	if c {
+		return a
+	}
+	return b
+}
